@@ -17,6 +17,21 @@ structure hijri_MonthData where
   EndJd : Int
 deriving DecidableEq, Repr
 
+structure lib_DHMS where
+  HMS : GoSem.HMS
+  Days : Int
+deriving DecidableEq, Repr
+
+structure lib_HMSRange where
+  Start : GoSem.HMS
+  End : GoSem.HMS
+deriving DecidableEq, Repr
+
+structure lib_DateHMS where
+  Date : GoSem.Date
+  HMS : GoSem.HMS
+deriving DecidableEq, Repr
+
 structure interval_IntervalPoint where
   Pos : Int
   IsEnd : Bool
@@ -163,6 +178,18 @@ def lib_HMS_IsValid (hms : GoSem.HMS) : Option Bool := do
 /-- date.go:43 -/
 def lib_Date_IsValid (date : GoSem.Date) : Option Bool := do
   pure ((((decide ((date).Month > 0)) && (decide ((date).Month < 13))) && (decide ((date).Day > 0))) && (decide ((date).Day < 40)))
+
+/-- hms.go:47 -/
+def lib_DHMS_IsValid (dhms : lib_DHMS) : Option Bool := do
+  (lib_HMS_IsValid (dhms).HMS)
+
+/-- hms.go:55 -/
+def lib_HMSRange_IsValid (hms : lib_HMSRange) : Option Bool := do
+  (do if (← (lib_HMS_IsValid (hms).Start)) then (lib_HMS_IsValid (hms).End) else pure false)
+
+/-- date.go:105 -/
+def lib_DateHMS_IsValid (dt : lib_DateHMS) : Option Bool := do
+  (do if (← (lib_Date_IsValid (dt).Date)) then (lib_HMS_IsValid (dt).HMS) else pure false)
 
 /-- interval/interval.go:171 -/
 def interval_Less (p : (List interval_IntervalPoint)) (i : Int) (j : Int) : Option Bool := do
@@ -1102,6 +1129,18 @@ def lib_HMS_IsValid_chk (hms : GoSem.HMS) : Option Bool := do
 def lib_Date_IsValid_chk (date : GoSem.Date) : Option Bool := do
   pure ((((decide ((date).Month > 0)) && (decide ((date).Month < 13))) && (decide ((date).Day > 0))) && (decide ((date).Day < 40)))
 
+/-- hms.go:47 -/
+def lib_DHMS_IsValid_chk (dhms : lib_DHMS) : Option Bool := do
+  (lib_HMS_IsValid_chk (dhms).HMS)
+
+/-- hms.go:55 -/
+def lib_HMSRange_IsValid_chk (hms : lib_HMSRange) : Option Bool := do
+  (do if (← (lib_HMS_IsValid_chk (hms).Start)) then (lib_HMS_IsValid_chk (hms).End) else pure false)
+
+/-- date.go:105 -/
+def lib_DateHMS_IsValid_chk (dt : lib_DateHMS) : Option Bool := do
+  (do if (← (lib_Date_IsValid_chk (dt).Date)) then (lib_HMS_IsValid_chk (dt).HMS) else pure false)
+
 /-- interval/interval.go:171 -/
 def interval_Less_chk (p : (List interval_IntervalPoint)) (i : Int) (j : Int) : Option Bool := do
   let a ← (GoSem.idxA p i)
@@ -1924,6 +1963,6 @@ def hijriT_GetMonthLen_chk (monthData : hijri_MonthData) (year : Int) (month : I
     pure (GoSem.u8 (← (GoSem.chk64 ((← (hijriT_ToJd_chk monthData (← (SrcExt.lib_NewDate year (GoSem.u8 (month + 1)) 1)))) - (← (hijriT_ToJd_chk monthData (← (SrcExt.lib_NewDate year month 1))))))))
 
 /-- the functions translated on this run -/
-def translated : List String := ["utils_Mod", "utils_Div", "utils_Divmod", "utils_IntMin", "utils_GetHmsBySeconds", "utils_MonthListIsValid", "utils_DayListIsValid", "utils_WeekDayListIsValid", "utils_bisectLeftRange", "utils_BisectLeft", "lib_GetTotalSeconds", "lib_GetFloatHour", "lib_FloatHourToHMS", "lib_toUint8", "lib_HMS_IsValid", "lib_Date_IsValid", "interval_Less", "interval_GetPointList", "interval_GetIntervalList", "interval_Normalize", "interval_Humanize", "interval_Extract", "interval_IntervalListByNumList", "interval_intersectionOfSomeIntervalLists_endPoint", "interval_IntersectionOfSomeIntervalLists", "interval_Intersection", "stack_Push", "stack_Pop", "rules_WeekMonth_IsValid", "julian_IsLeap", "julian_getYearDays", "julian_getMonthDayFromYdays", "julian_ToJd", "julian_JdTo", "julian_GetMonthLen", "jalali_IsLeap", "jalali_getMonthDayFromYdays", "jalali_ToJd", "jalali_JdTo", "jalali_GetMonthLen", "ethiopian_IsLeap", "ethiopian_ToJd", "ethiopian_JdTo", "ethiopian_GetMonthLen", "gprol_IsLeap", "gprol_ToJd", "gprol_JdTo", "gprol_GetMonthLen", "indian_IsLeap", "indian_ToJd", "indian_JdTo", "indian_GetMonthLen", "hijri_IsLeap", "hijri_ToJd", "hijri_JdTo", "hijri_GetMonthLen", "hijri_MonthData_GetDateFromJd", "hijri_MonthData_GetJdFromDate", "hijriT_IsLeap", "hijriT_MonthData_GetJdFromDate", "hijriT_MonthData_GetDateFromJd", "hijriT_ToJd", "hijriT_JdTo", "hijriT_GetMonthLen"]
+def translated : List String := ["utils_Mod", "utils_Div", "utils_Divmod", "utils_IntMin", "utils_GetHmsBySeconds", "utils_MonthListIsValid", "utils_DayListIsValid", "utils_WeekDayListIsValid", "utils_bisectLeftRange", "utils_BisectLeft", "lib_GetTotalSeconds", "lib_GetFloatHour", "lib_FloatHourToHMS", "lib_toUint8", "lib_HMS_IsValid", "lib_Date_IsValid", "lib_DHMS_IsValid", "lib_HMSRange_IsValid", "lib_DateHMS_IsValid", "interval_Less", "interval_GetPointList", "interval_GetIntervalList", "interval_Normalize", "interval_Humanize", "interval_Extract", "interval_IntervalListByNumList", "interval_intersectionOfSomeIntervalLists_endPoint", "interval_IntersectionOfSomeIntervalLists", "interval_Intersection", "stack_Push", "stack_Pop", "rules_WeekMonth_IsValid", "julian_IsLeap", "julian_getYearDays", "julian_getMonthDayFromYdays", "julian_ToJd", "julian_JdTo", "julian_GetMonthLen", "jalali_IsLeap", "jalali_getMonthDayFromYdays", "jalali_ToJd", "jalali_JdTo", "jalali_GetMonthLen", "ethiopian_IsLeap", "ethiopian_ToJd", "ethiopian_JdTo", "ethiopian_GetMonthLen", "gprol_IsLeap", "gprol_ToJd", "gprol_JdTo", "gprol_GetMonthLen", "indian_IsLeap", "indian_ToJd", "indian_JdTo", "indian_GetMonthLen", "hijri_IsLeap", "hijri_ToJd", "hijri_JdTo", "hijri_GetMonthLen", "hijri_MonthData_GetDateFromJd", "hijri_MonthData_GetJdFromDate", "hijriT_IsLeap", "hijriT_MonthData_GetJdFromDate", "hijriT_MonthData_GetDateFromJd", "hijriT_ToJd", "hijriT_JdTo", "hijriT_GetMonthLen"]
 
 end Starcal.Gen.Src
